@@ -4,7 +4,7 @@ from __future__ import annotations
 import ast
 from typing import Any
 
-from ..astutil import call_name, norm, short, where
+from ..astutil import Locals, call_name, norm, receivers, short, where
 from ..core import PKG, Report
 
 LEVEL = ("effect-scope clauses (two-run comparisons are not decided): plumbing ConfigFile -> Config and CLI -> Config is the "
@@ -95,9 +95,19 @@ def run(rep: Report, ctx: Any) -> str:
     pos = [p.arg for p in fs.params]
     given = {pos[i]: norm(a) for i, a in enumerate(fcall.args) if i < len(pos)}
     given.update({k.arg: norm(k.value) for k in fcall.keywords})
+    pcl = Locals(pc.node)
     for name, val in given.items():
-        want = {"document_source": "source"}.get(name, name)
-        rep.check(val == want, "R16.1", f"cli._process_config::{name}", "value modified between the CLI and Config", where(pc, fcall), lhs=val, rhs=want)
+        defs = sorted({norm(v_) for v_ in pcl.values_of(val)})
+        if name == "document_source":
+            # a local (any spelling) that is only ever the url or the path option
+            ok = bool(defs) and set(defs) <= {"url", "path"}
+            want = "a local bound to `url` or `path`"
+        elif name == "config_file":
+            ok = bool(defs) and set(defs) <= {"ConfigFile()", "ConfigFile.load_from_path(path=config_path)"}
+            want = "ConfigFile() | ConfigFile.load_from_path(path=config_path)"
+        else:
+            ok, want = val == name and not defs, name
+        rep.check(ok, "R16.1", f"cli._process_config::{name}", "value modified between the CLI and Config", where(pc, fcall), lhs=[val, defs], rhs=want)
     pparams = {p.arg for p in pc.params}
     re_assigned = sorted({x.id for n in ast.walk(pc.node) if isinstance(n, (ast.Assign, ast.AugAssign, ast.AnnAssign))
                           for t in (n.targets if isinstance(n, ast.Assign) else [n.target]) for x in ast.walk(t)
@@ -171,11 +181,12 @@ def run(rep: Report, ctx: Any) -> str:
     # media types
     for fname in ("responses._source_by_content_type", "bodies.body_from_data"):
         f = ix.func(fname)
-        raw = "content_type"
+        raw = None
         parsed = None
         for n in ast.walk(f.node):
             if isinstance(n, ast.Assign) and isinstance(n.value, ast.Call) and call_name(n.value).endswith("get_content_type"):
                 parsed = norm(n.targets[0])
+                raw = norm(n.value.args[0]) if n.value.args else None  # the document's own key is whatever is handed to the classifier
         rep.check(parsed is not None, "R16.3", f"{short(f)}::classifies-through-get_content_type", "media types are not classified through get_content_type",
                   where(f, f.node))
         if parsed is None:
@@ -195,33 +206,42 @@ def run(rep: Report, ctx: Any) -> str:
                   f"the raw media type key is tested directly ({bad}): content_type_overrides has no effect on this decision", where(f, f.node),
                   lhs=bad, rhs=f"only `{parsed}` is tested")
     bfd = ix.func("bodies.body_from_data")
-    loop = next((n for n in ast.walk(bfd.node) if isinstance(n, ast.For) and "body_content.items()" in norm(n.iter)), None)
-    rep.require(loop, "media type loop")
-    keyvar = norm(loop.target.elts[0]) if isinstance(loop.target, ast.Tuple) else None
     bodies = [c for c in ast.walk(bfd.node) if isinstance(c, ast.Call) and call_name(c) == "Body"]
     rep.require(bodies, "Body(...) construction")
     for c in bodies:
+        loop = next((n for n in ast.walk(bfd.node) if isinstance(n, ast.For) and norm(n.iter).endswith(".items()") and any(x is c for x in ast.walk(n))), None)
+        rep.require(loop, "media type loop")
+        keyvar = norm(loop.target.elts[0]) if isinstance(loop.target, ast.Tuple) else None
         ct = {k.arg: norm(k.value) for k in c.keywords}.get("content_type")
         rep.check(ct == keyvar, "R16.3", "body_from_data::content-type-is-the-documents-key",
                   "the Content-Type that will be sent is the normalised/overridden media type, not the one the document declares", where(bfd, c),
                   lhs=ct, rhs=keyvar)
     # ---- R16.4 --------------------------------------------------------------------------------------------------------------
     fd = ix.func("EndpointCollection.from_data")
-    tags = [n for n in ast.walk(fd.node) if isinstance(n, ast.Assign) and norm(n.targets[0]) == "tags"]
+    fl = Locals(fd.node)
+    efd_calls = [c for c in ast.walk(fd.node) if isinstance(c, ast.Call) and call_name(c) == "Endpoint.from_data"]
+    rep.require(efd_calls, "Endpoint.from_data(...) call")
+    tagv = next((norm(k.value) for k in efd_calls[0].keywords if k.arg == "tags"), "")
+    tags = [n for n in ast.walk(fd.node) if isinstance(n, ast.Assign) and norm(n.targets[0]) == tagv]
     rep.require(tags, "tags assignment")
     first = tags[0].value
+    ops = set(fl.bound_from(lambda v: v.startswith("getattr("), "assign"))
     ordered = isinstance(first, ast.ListComp) and not any(isinstance(x, ast.Call) and call_name(x) in ("sorted", "set", "frozenset") for x in ast.walk(first)) \
-        and "operation.tags" in norm(first.generators[0].iter)
+        and any(norm(first.generators[0].iter).startswith(f"{o}.tags") for o in ops)
     rep.check(ordered, "R16.4", "EndpointCollection.from_data::tags-keep-document-order",
               "tags are reordered / de-duplicated through a set: with generate_all_tags off the module lands under another tag than the first listed",
               where(fd, tags[0]), lhs=norm(first)[:80], rhs="[PythonIdentifier(tag) for tag in operation.tags or ['default']]")
-    cut = [n for n in tags[1:] if "tags[:1]" in norm(n.value)]
+    cut = [n for n in tags[1:] if norm(n.value) == f"{tagv}[:1]"]
     guard = next((n for n in ast.walk(fd.node) if isinstance(n, ast.If) and "generate_all_tags" in norm(n.test)), None)
     rep.check(bool(cut) and guard is not None and norm(guard.test) == "not config.generate_all_tags" and cut[0] in guard.body, "R16.4",
               "EndpointCollection.from_data::first-tag-unless-all", "`tags[:1]` is not applied exactly when generate_all_tags is off", where(fd, fd.node))
-    apps = [c for c in ast.walk(fd.node) if isinstance(c, ast.Call) and call_name(c) == "collection.endpoints.append"]
-    rep.check(bool(apps) and all(norm(c.args[0]) == "endpoint" for c in apps), "R16.4", "EndpointCollection.from_data::same-endpoint-object",
-              "collections receive per-tag copies", where(fd, fd.node))
+    # every collection of the operation receives the endpoint object itself (the local bound from Endpoint.from_data / add_parameters ...)
+    colls = set(fl.bound_from(lambda v: v.startswith("[") and ".setdefault(" in v, "assign"))
+    endpoints = set(fl.bound_from(lambda v: v.startswith("Endpoint.from_data("), "assign[0]"))
+    apps = [c for lp in ast.walk(fd.node) if isinstance(lp, ast.For) and norm(lp.iter) in colls
+            for r, c in receivers(lp, "append") if r == f"{norm(lp.target)}.endpoints"]
+    rep.check(bool(apps) and all(c.args and norm(c.args[0]) in endpoints for c in apps), "R16.4", "EndpointCollection.from_data::same-endpoint-object",
+              "collections receive per-tag copies", where(fd, fd.node), lhs=[norm(c) for c in apps], rhs="<collection>.endpoints.append(<endpoint>)")
     rep.not_decided += ["'only rename' / 'same wire behaviour' across two runs with different option values"]
     return LEVEL
 
